@@ -5,7 +5,7 @@ PROPERTY = 'C03'
 LEVEL = 'proof'
 
 def run(ctx):
-    ok = ctx.lean(['AmcVerif.Props.C03', 'AmcVerif.Props.C03b', 'AmcVerif.Props.C03c', 'AmcVerif.Props.C03d', 'AmcVerif.Props.C03e'], extra_modules=['AmcVerif.Bridge.FlatSetBridge', 'AmcVerif.Bridge.FlatSetHetBridge'])
+    ok = ctx.lean(['AmcVerif.Props.C03', 'AmcVerif.Props.C03b', 'AmcVerif.Props.C03c', 'AmcVerif.Props.C03d', 'AmcVerif.Props.C03e', 'AmcVerif.Props.C03f'], extra_modules=['AmcVerif.Bridge.FlatSetBridge', 'AmcVerif.Bridge.FlatSetHetBridge'])
     n = 60 if ctx.tier == 'quick' else 400
     if not ok:
         n *= 3
